@@ -441,7 +441,7 @@ func racePass() int {
 	return 0
 }
 
-// schedulerCanary explores two tiny programs whose behaviour under all interleavings is known.
+// schedulerCanary explores four tiny programs whose behaviour under all interleavings is known.
 func schedulerCanary() string {
 	type box struct {
 		mu, mu2 vsync.Mutex
@@ -478,6 +478,37 @@ func schedulerCanary() string {
 	}
 	if dead == 0 || st2.OutcomeN["done"] == 0 {
 		return fmt.Sprintf("lock-order canary: outcomes %v, want both completion and deadlock", st2.OutcomeN)
+	}
+	// a recursive read lock deadlocks exactly when a writer arrives between the two RLock calls (writer preference)
+	type rwbox struct{ rw vsync.RWMutex }
+	rr := func(inst any) { b := inst.(*rwbox); b.rw.RLock(); b.rw.RLock(); b.rw.RUnlock(); b.rw.RUnlock() }
+	wr := func(inst any) { b := inst.(*rwbox); b.rw.Lock(); b.rw.Unlock() }
+	p3 := &sched.Program{Name: "canary-recursive-rlock", Setup: func() any { return &rwbox{} }, Threads: []func(any){rr, wr},
+		Finish: func(any) string { return "done" }}
+	st3 := sched.Explore(p3, -1, 10000, nil)
+	dead = 0
+	for o, n := range st3.OutcomeN {
+		if strings.HasPrefix(o, "DEADLOCK") {
+			dead += n
+		}
+	}
+	if dead == 0 || st3.OutcomeN["done"] == 0 {
+		return fmt.Sprintf("recursive-rlock canary: outcomes %v, want both completion and deadlock", st3.OutcomeN)
+	}
+	// an iteration over the sync.Map shim can see a store that lands between two of its visits
+	type mbox struct{ m vsync.Map }
+	walk := func(inst any) {
+		b := inst.(*mbox)
+		sum := 0
+		b.m.Range(func(_, v any) bool { sum += v.(int); return true })
+		b.m.Store("sum", sum)
+	}
+	move := func(inst any) { b := inst.(*mbox); b.m.Store("a", 0); b.m.Store("b", 1) }
+	p4 := &sched.Program{Name: "canary-map-range", Setup: func() any { b := &mbox{}; b.m.Store("a", 1); b.m.Store("b", 0); return b },
+		Threads: []func(any){walk, move}, Finish: func(inst any) string { v, _ := inst.(*mbox).m.Load("sum"); return fmt.Sprint(v) }}
+	st4 := sched.Explore(p4, -1, 10000, nil)
+	if st4.OutcomeN["2"] == 0 || st4.OutcomeN["1"] == 0 {
+		return fmt.Sprintf("map-range canary: outcomes %v, want the torn sum 2 (old a + new b) next to 1", st4.OutcomeN)
 	}
 	return ""
 }
